@@ -894,6 +894,11 @@ def _():
                     rows.append(f'{fname}:{func.name}: {hit} :: ' + ast.unparse(st).replace('\n', ' ')[:160])
     return G.emit_strings('inv_view_writes', sorted(rows), 'in-place writes through view handles (whole package)')
 
+# FSQ.forward: the flat index is computed from the float32 codes BEFORE they are cast back to the activation dtype (Proofs/BF16Index.v: in bfloat16 the
+# index arithmetic is wrong from 258 levels on)
+ITEMS.append(('o_fsq_index_cast', lambda: G.emit_call_sequence('o_fsq_index_cast', FSQF, 'FSQ.forward', ('self.quantize', 'self.codes_to_indices', 'codes.to', 'codes.type', 'self.quantize(z).to'),
+                                                                'FSQ.forward: codes_to_indices before the cast to the activation dtype')))
+
 
 # einops patterns (G3)
 for name, fname, qual in (('pat_vq_forward', VQ, 'VectorQuantize.forward'), ('pat_vq_split', VQ, 'VectorQuantize.maybe_split_heads_from_input'),
